@@ -101,6 +101,11 @@ def run(tier):
     r = C.rng(PROP)
     items = make_inputs(r, tier, fgs)
     outs = C.run_impl_parallel("convert_gate", [{"iupac": i["iupac"], "kw": i["kw"]} for i in items])
+    # the same question in processes that have already seen failing calls of every public entry point
+    again = [dict(i, kind="after-failed-calls") for i in items if i["kind"] in ("meaningless", "single-default", "grammar")]
+    again = again if tier == "thorough" else r.sample(again, min(len(again), 150))
+    outs += C.run_impl_parallel("convert_gate", [{"iupac": i["iupac"], "kw": i["kw"]} for i in again], extra={"prelude": True})
+    items = items + again
     kinds, nonempty, gate_seen, gate_rejects, o1 = {}, 0, 0, 0, 0
     oracle_notes = []
     for it, o in zip(items, outs):
